@@ -87,3 +87,12 @@ func CBCHMACOpen(p CBCHMACParams, k, iv, e, t, a []byte) ([]byte, error) {
 	cipher.NewCBCDecrypter(blk, iv).CryptBlocks(out, e)
 	return Unpad(out, 16)
 }
+
+// CBCHMACTag computes T for given E (RFC 7518 §5.2.2.1 steps 4-5). The checks
+// use it to build inputs whose tag is valid but whose padding is not.
+func CBCHMACTag(p CBCHMACParams, k, iv, e, a []byte) []byte {
+	return cbcHMACTag(p, k[:p.MacKeyLen], a, iv, e)
+}
+
+// CBCHMACParamsOf returns the parameter set of a JWA name (A128CBC-HS256 ...).
+func CBCHMACParamsOf(a Alg) CBCHMACParams { return a.cbcHMACParams() }
